@@ -318,19 +318,16 @@ static time_t time_left (int slot, time_t delay) {
 
 
 /*
- * Throw away a call out. First call to this function is discarded.
- * The time left until execution is returned.
- * -1 is returned if no call out pending.
- * (The time left is an LPC integer, like the delay given to call_out(): an int
- * does not hold all of them, and 0xffffffff seconds left would read as -1.)
+ * Find the call out of 'ob' to function 'fun' that is due first. Several can be
+ * pending, in any slots: the order of the slots says nothing about which one
+ * comes first. Returns the link that points to it (0 if there is none) and the
+ * time it has left.
  */
-int64_t remove_call_out (object_t * ob, char *fun) {
-  pending_call_t **copp, *cop;
-  time_t delay;
+static pending_call_t **find_next_call_out (object_t * ob, char *fun, time_t * left) {
+  pending_call_t **copp, **found = 0;
+  time_t delay, t;
   int i;
 
-  if (!ob)
-    return -1;
   for (i = 0; i < CALLOUT_CYCLE_SIZE; i++)
     {
       delay = 0;
@@ -339,16 +336,41 @@ int64_t remove_call_out (object_t * ob, char *fun) {
           delay += (*copp)->delta;
           if ((*copp)->ob == ob && strcmp ((*copp)->function.s, fun) == 0)
             {
-              cop = *copp;
-              if (cop->next)
-                cop->next->delta += cop->delta;
-              *copp = cop->next;
-              free_call (cop);
-              return (int64_t)time_left (i, delay);
+              t = time_left (i, delay);
+              if (!found || t < *left)
+                {
+                  found = copp;
+                  *left = t;
+                }
+              break;		/* the others of this slot come later */
             }
         }
     }
-  return -1;
+  return found;
+}
+
+/*
+ * Throw away a call out. First call to this function is discarded.
+ * The time left until execution is returned.
+ * -1 is returned if no call out pending.
+ * (The time left is an LPC integer, like the delay given to call_out(): an int
+ * does not hold all of them, and 0xffffffff seconds left would read as -1.)
+ */
+int64_t remove_call_out (object_t * ob, char *fun) {
+  pending_call_t **copp, *cop;
+  time_t left;
+
+  if (!ob)
+    return -1;
+  copp = find_next_call_out (ob, fun, &left);
+  if (!copp)
+    return -1;
+  cop = *copp;
+  if (cop->next)
+    cop->next->delta += cop->delta;
+  *copp = cop->next;
+  free_call (cop);
+  return (int64_t)left;
 }
 
 int64_t remove_call_out_by_handle (int handle) {
@@ -386,23 +408,11 @@ int64_t find_call_out_by_handle (int handle) {
 }
 
 int64_t find_call_out (object_t * ob, char *fun) {
-  pending_call_t *cop;
-  time_t delay;
-  int i;
+  time_t left;
 
-  if (!ob)
+  if (!ob || !find_next_call_out (ob, fun, &left))
     return -1;
-  for (i = 0; i < CALLOUT_CYCLE_SIZE; i++)
-    {
-      delay = 0;
-      for (cop = call_list[i]; cop; cop = cop->next)
-        {
-          delay += cop->delta;
-          if (cop->ob == ob && strcmp (cop->function.s, fun) == 0)
-            return (int64_t)time_left (i, delay);
-        }
-    }
-  return -1;
+  return (int64_t)left;
 }
 
 int
